@@ -3,6 +3,7 @@ import ExprModel.Drv.Code
 import ExprModel.Drv.Lex
 import ExprModel.Drv.Source
 import ExprModel.Drv.Spec
+import ExprModel.Drv.SrcDefects
 import ExprModel.Drv.Types
 import ExprModel.Drv.Walk
 /-
@@ -19,7 +20,8 @@ def handlers : List (String × (List Sexp → Sexp)) :=
   Drv.sourceHandlers ++
   Drv.lexHandlers ++
   Drv.walkHandlers ++
-  Drv.typesHandlers
+  Drv.typesHandlers ++
+  Drv.srcDefectsHandlers
 
 def dispatch (req : Sexp) : Sexp :=
   match req with
